@@ -92,7 +92,165 @@ def scenarios():
     return out
 
 
+# ------------------------------------------------------------------------------------------------------
+# operations of the property's list that the scenario language does not cover: executed directly on the real API
+def direct_ops():
+    import usim
+
+    def res():
+        return usim.Resources(a=4, b=2)
+
+    async def borrow_enter_exit(st):
+        async with st['res'].borrow(a=1):
+            st['mark']('inside')
+
+    async def claim_enter_exit(st):
+        async with st['res'].claim(a=1, b=1):
+            st['mark']('inside')
+
+    async def cap_borrow(st):
+        async with st['cap'].borrow(a=2):
+            st['mark']('inside')
+
+    async def nested_borrow(st):
+        async with st['res'].borrow(a=2) as share:
+            async with share.borrow(a=1):
+                st['mark']('inside')
+
+    async def interval0(st):
+        async for now in usim.interval(0):
+            break
+
+    async def delay0(st):
+        async for now in usim.delay(0):
+            break
+
+    async def nothing():
+        return 1
+
+    async def collect0(st):
+        await usim.collect()
+
+    async def collect2(st):
+        await usim.collect(nothing(), nothing())
+
+    async def first1(st):
+        async for w in usim.first(nothing(), nothing(), count=1):
+            pass
+
+    async def chan_iter_buffered(st):
+        # two messages buffered for this consumer: the step to the second one must yield (D15)
+        n = 0
+        async for m in st['chan']:
+            n += 1
+            if n == 1:
+                st['mark']('start2')
+            if n == 2:
+                st['mark']('end2')
+                break
+
+    async def queue_iter_buffered(st):
+        async for m in st['queue']:
+            break
+
+    ops = [
+        ('pipe transfer of zero volume', lambda st: st['pipe'].transfer(0)),
+        ('pipe transfer of zero volume with own limit', lambda st: st['pipe'].transfer(0, throughput=1)),
+        ('unbounded pipe transfer', lambda st: usim.UnboundedPipe().transfer(5)),
+        ('infinite throughput pipe transfer', lambda st: usim.Pipe(throughput=float('inf')).transfer(5)),
+        ('borrow available resources and give them back', borrow_enter_exit),
+        ('claim available resources and give them back', claim_enter_exit),
+        ('borrow from capacities', cap_borrow),
+        ('nested borrow', nested_borrow),
+        ('increase resources', lambda st: st['res'].increase(a=1)),
+        ('decrease resources', lambda st: st['res'].decrease(a=1)),
+        ('set resources', lambda st: st['res'].set(a=3)),
+        ('first step of interval(0)', interval0),
+        ('first step of delay(0)', delay0),
+        ('collect of nothing', collect0),
+        ('collect of finished activities', collect2),
+        ('first of immediately finishing activities', first1),
+        ('channel put without consumer', lambda st: st['chan0'].put(1)),
+        ('channel close', lambda st: st['chan0'].close()),
+        ('queue iteration step with a buffered item', queue_iter_buffered),
+    ]
+    return ops, chan_iter_buffered
+
+
+def run_direct(ctx):
+    import usim
+    ops, chan_iter_buffered = direct_ops()
+    for name, op in ops + [('channel iteration step to a second buffered message', None)]:
+        for k in (1, 2, 5):
+            marks = []
+            st = {'mark': lambda x: marks.append((x, usim.time.now))}
+
+            async def setup():
+                st['pipe'] = usim.Pipe(throughput=2)
+                st['res'] = usim.Resources(a=4, b=2)
+                st['cap'] = usim.Capacities(a=4)
+                st['chan'] = usim.Channel()
+                st['chan0'] = usim.Channel()
+                st['queue'] = usim.Queue()
+                await st['queue'].put(1)
+
+            async def subject():
+                await (usim.time + 1)
+                if op is None:
+                    await chan_iter_buffered(st)
+                else:
+                    st['mark']('start')
+                    await op(st)
+                    st['mark']('end')
+
+            async def feeder():
+                # two messages arrive while the channel consumer waits, both before its next turn
+                await (usim.time + 1)
+                await st['chan'].put(1)
+                await st['chan'].put(2)
+
+            async def spinner(i):
+                await (usim.time + 1)
+                st['mark'](('spin', i))
+                await usim.instant
+                st['mark'](('spin2', i))
+            case = {'operation': name, 'spinners': k}
+            acts = [setup(), subject()] + [spinner(i) for i in range(k)]
+            if op is None:
+                # the consumer must already be subscribed when the messages arrive
+                async def early_consumer():
+                    await chan_iter_buffered(st)
+                acts = [setup(), early_consumer(), feeder()] + [spinner(i) for i in range(k)]
+            try:
+                usim.run(*acts)
+            except BaseException as e:
+                ctx.fail(case, 'operation %r raised %r' % (name, e), family='direct')
+                continue
+            ctx.count(case)
+            ctx.bump('direct:' + name.split(' ')[0])
+            s_name, e_name = ('start2', 'end2') if op is None else ('start', 'end')
+            names = [m[0] for m in marks]
+            if s_name not in names or e_name not in names:
+                ctx.fail(case, 'operation %r did not complete: %r' % (name, marks), family='direct')
+                continue
+            ts, te = marks[names.index(s_name)][1], marks[names.index(e_name)][1]
+            if te > ts:
+                continue
+            ie = names.index(e_name)
+            marker = 'spin2' if op is None else 'spin'
+            isx = names.index(s_name)
+            for i in range(k):
+                # a competitor that was runnable when the operation started must have had a turn before it completed
+                turns = [j for j, n_ in enumerate(names) if isinstance(n_, tuple) and n_[1] == i and isx < j < ie] \
+                    if op is None else [j for j, n_ in enumerate(names) if n_ == ('spin', i) and j < ie]
+                if not turns:
+                    ctx.fail(case, '%s: competitor %d got no turn before the operation completed: %r' % (name, i, names), family='direct')
+                    break
+    ctx.extra['direct_operations'] = len(ops) + 1
+
+
 def run(ctx):
+    run_direct(ctx)
     ext = scenarios()
     ctx.extra['table_rows'] = len(TABLE)
     ctx.extra['exhaustive'] = True
